@@ -29,6 +29,16 @@ def _classes():
             self.calls.append(("other", idx))
             return ("other", idx)
 
+        def getitem_flag(self, idx, ctx=None):
+            # records a context key for some samples only
+            if ctx is not None and idx % 2 == 0:
+                ctx["flag"] = idx
+            return ("flag", idx)
+
+        def getitem_probe(self, idx, ctx=None):
+            # reports the context entries it can see: must be those of THIS sample only
+            return ("probe", idx, None if ctx is None else tuple(sorted(ctx.items())))
+
     class Fused(KDWrapper):
         """declares x and class as jointly loaded (like the mix wrapper)"""
         def __init__(self, dataset):
@@ -51,6 +61,12 @@ def _classes():
         def getitem_other(self, idx, ctx=None):
             return self.dataset.getitem_other(idx, ctx)
 
+        def getitem_flag(self, idx, ctx=None):
+            return self.dataset.getitem_flag(idx, ctx)
+
+        def getitem_probe(self, idx, ctx=None):
+            return self.dataset.getitem_probe(idx, ctx)
+
     class Plain(KDWrapper):
         pass
     return Base, Fused, Plain
@@ -59,6 +75,7 @@ def _classes():
 def expected_item(item, i, stack, joint_id):
     if item == "index": return i
     if item == "ctx.k": return i * 10
+    if item == "probe": return "PROBE"
     if stack == "fused" and item in ("x", "class"):
         return ("fx" if item == "x" else "fc", (item, i), joint_id)
     return (item, i)
@@ -113,6 +130,24 @@ def check_mode(stack, items, n, return_ctx, rng):
                     ids = {vals[q][2] for q in firsts}
                     if len(ids) != 1:
                         return {"what": "jointly declared items were not loaded together once", "mode": mode, "joint ids": xs}
+            elif it == "probe":
+                seen = vals[p][2]
+                propagated = return_ctx or any(t.startswith("ctx.") for t in items)
+                if not propagated:
+                    if seen is not None:
+                        return {"what": "a context is handed to the loaders although none is propagated", "observed": str(seen)}
+                    continue
+                exp_ctx = {}
+                for q, t in enumerate(items[:p]):
+                    if t == "x" or (stack == "fused" and t == "class"):
+                        exp_ctx["k"] = ii * 10
+                    if t == "flag" and ii % 2 == 0:
+                        exp_ctx["flag"] = ii
+                if fused_both and ("x" in items[:p] or "class" in items[:p]):
+                    exp_ctx["k"] = ii * 10
+                if seen is None or dict(seen) != exp_ctx:
+                    return {"what": "the context seen by a loader carries entries of another sample (or misses this sample's)", "idx": i,
+                            "expected": str(exp_ctx), "observed": str(seen), "mode": mode}
             else:
                 exp = expected_item(it, ii, stack, None)
                 if vals[p] != exp:
@@ -152,7 +187,16 @@ def check_torch_wrapper(n):
     class TDS(torch.utils.data.Dataset):
         def __len__(self): return n
         def __getitem__(self, i): return (("x", i), ("class", i), ("other", i))
+    class TDS2(torch.utils.data.Dataset):
+        def __len__(self): return n
+        def __getitem__(self, i): return (("x2", i), ("class2", i), ("other2", i))
     tw = TorchWrapper(TDS(), mode="x class other")
+    tw2 = TorchWrapper(TDS2(), mode="x class other")
+    for i in range(n):
+        # two independent stacks (e.g. train / test) read alternately
+        a, b = tw.getitem_class(i), tw2.getitem_class(i)
+        if a != ("class", i) or b != ("class2", i):
+            return {"what": "a torch wrapper returns a sample of another wrapper instance", "idx": i, "observed": str((a, b))}
     for mode in ("class", "other x", "x index class"):
         mw = ModeWrapper(tw, mode=mode)
         for i in range(n):
@@ -168,7 +212,7 @@ def check_torch_wrapper(n):
 def search(limit, seed, max_items=3):
     rng = random.Random(seed)
     n = 0
-    names = ["x", "class", "other", "index", "ctx.k"]
+    names = ["x", "class", "other", "index", "ctx.k", "flag", "probe"]
     modes = []
     for k in range(1, max_items + 1):
         for items in itertools.product(names, repeat=k):
